@@ -96,7 +96,7 @@ def flatten(cfg, m):
     return c2, ren
 
 
-def timeline(log):
+def timeline(log, cfg=None):
     """{job: [start, end, how]} for atomic jobs, and the outcome of the top-level run"""
     now = 0.0
     tl = {}
@@ -105,7 +105,7 @@ def timeline(log):
     for e in log:
         k = e[0]
         if (k in ("chit", "cabort", "cend", "taskcancelled", "waitcancel")
-                or (k == "finish" and e[2] == "exc")
+                or (k == "finish" and e[2] == "exc" and (cfg is None or cfg["jobs"][e[1]]["crit"]))
                 or (k == "end" and e[2] not in ("true",))) and now < tl["first_cancel"]:
             # the first instant at which something aborts or fails (a raising job may be critical)
             tl["first_cancel"] = now
@@ -131,9 +131,10 @@ def _run_flat(arg):
         return None
     r1 = run_config(cfg)
     r2 = run_config(c2)
-    t1, o1 = timeline(r1["log"])
-    t2, o2 = timeline(r2["log"])
+    t1, o1 = timeline(r1["log"], cfg)
+    t2, o2 = timeline(r2["log"], c2)
     diffs = []
+    late = []
 
     def first_cancel(t):
         return t["first_cancel"]
@@ -153,7 +154,40 @@ def _run_flat(arg):
         if va != vb:
             diffs.append({"job": old, "job_in_flattened_graph": new, "nested_tree (start, end, how)": a,
                           "flattened_graph (start, end, how)": b, "first_abort_instant": T})
-    return diffs
+        elif (list(a) if a else None) != (list(b) if b else None):
+            late.append({"job": old, "job_in_flattened_graph": new, "nested_tree (start, end, how)": a,
+                         "flattened_graph (start, end, how)": b, "first_abort_instant": T})
+    if not diffs and not late and T != float("inf") and o1 and o2 and o1[:3] != o2[:3]:
+        late.append({"outcome_of_run_nested": o1, "outcome_of_run_flattened": o2, "first_abort_instant": T})
+    if diffs:
+        return diffs
+    if late and not (critical_failure_at(cfg, t1, T) or critical_failure_at(c2, t2, T)):
+        return late
+    if late:
+        # known finding F9: from the first instant at which a critical job raises, the nested tree and
+        # the flattened graph may part (the nested run finishes its own cleanup before its parent
+        # notices; jobs that tie with the abort)
+        return [{"known": F9_SIGNATURE}] + late
+    return []
+
+
+F9_SIGNATURE = "c10_divergence_from_first_critical_failure_on"
+F9_TEXT = ("from the first instant T at which a critical job raises, a tree with critical nested schedulers (no window, "
+           "timeout or forever job) and its flattened graph may part: the nested run finishes cancelling and shutting down "
+           "its own jobs before its run ends and its parent aborts, so jobs elsewhere keep running (and may raise first) "
+           "while the flattened graph cancels them at T; jobs that tie with the abort at T may start or end in one and not "
+           "in the other; witness root{m1{x critical raises at 1; z with a 2 s cancellation handler}, m2{y critical raises "
+           "at 2}}: y raises at 2 and run() raises y's exception, flattened: y is cancelled at 1 and run() raises x's")
+
+
+def critical_failure_at(cfg, tl, T):
+    """did a critical atomic job raise at instant T in this run"""
+    for x, j in enumerate(cfg["jobs"]):
+        if not j["sched"] and j["crit"] and j["out"] == "exc":
+            a = tl.get(x)
+            if a and a[1] == T and a[2] == "exc":
+                return True
+    return False
 
 
 _POOL = None
@@ -189,13 +223,24 @@ class C10(RProp):
             for (i, m), d in zip(work, outs):
                 results[i]["tags"]["flattened"] = 1
                 results[i]["traces"] = results[i].get("traces", 0) + 2
-                if d:
-                    if results[i]["status"] != "specfail":
+                if d and d[0].get("known"):
+                    if results[i]["status"] == "ok":
                         results[i]["status"] = "specfail"
+                        results[i]["signature"] = d[0]["known"]
+                        results[i]["detail"] = {"what": "known finding F9: " + F9_TEXT, "differences": d[1:7]}
+                elif d:
+                    if results[i]["status"] != "specfail" or results[i].get("signature"):
+                        results[i]["status"] = "specfail"
+                        results[i].pop("signature", None)
                         results[i]["detail"] = {"what": "dissolving the critical nested scheduler %d (no window, timeout, "
                                                         "forever job) into its parent changes when jobs run" % m,
                                                 "differences": d[:6]}
         return results
+
+    def known_finding(self, case, res):
+        if res.get("signature") == F9_SIGNATURE and res["status"] == "specfail":
+            return core.listed_finding("C10", F9_SIGNATURE)
+        return None
 
 
 def gen_profile():
